@@ -180,25 +180,34 @@ Record info := mk_info { i_nswp : nat; i_stop : stopr; i_e : T; i_evld : T }.
 (*  while True:
         Yold = copy(Y); <sweep>; info['nswp'] += 1; info['e'] = accuracy(Y, Yold); info['e_vld'] = ...
         if cb: if cb(Y, info, opts) is True: info['stop'] = info['stop'] or 'cb'
-        if _info_appr(...): return Y                                                                *)
-Fixpoint als_loop (fuel : nat) (lamb : T) (S : list sample) (nswp : option nat) (e evld : option T)
-                  (s : st) (t : nat) (stop : option stopr) : result (list (core T) * info) :=
+        if _info_appr(...): return Y
+    The driver loop is shared by als (state = cores + interface matrices, [sweepf] = sweep) and als_func. *)
+Section Loop.
+Variable St : Type.
+Variable sweepf : St -> St.
+Variable cores : St -> list (core T).
+Fixpoint gen_loop (fuel : nat) (nswp : option nat) (e evld : option T)
+                  (s : St) (t : nat) (stop : option stopr) : result (list (core T) * info) :=
   match fuel with
   | O => Err OutOfFuel
   | Datatypes.S f =>
-      let Yold := sY s in
-      let s' := sweep lamb S s in
+      let Yold := cores s in
+      let s' := sweepf s in
       let t' := Datatypes.S t in
-      let ecur := acc t' (sY s') Yold in
-      let evcur := accv t' (sY s') in
+      let ecur := acc t' (cores s') Yold in
+      let evcur := accv t' (cores s') in
       let stop1 := match cb with
-                   | Some c => if c t' (sY s') then keep stop (Some SCb) else stop
+                   | Some c => if c t' (cores s') then keep stop (Some SCb) else stop
                    | None => stop end in
       match info_appr stop1 t' ecur evcur nswp e evld with
-      | Some r => Ok (sY s', mk_info t' r ecur evcur)
-      | None => als_loop f lamb S nswp e evld s' t' None
+      | Some r => Ok (cores s', mk_info t' r ecur evcur)
+      | None => gen_loop f nswp e evld s' t' None
       end
   end.
+End Loop.
+Definition als_loop (fuel : nat) (lamb : T) (S : list sample) (nswp : option nat) (e evld : option T)
+                  (s : st) (t : nat) (stop : option stopr) : result (list (core T) * info) :=
+  gen_loop st (sweep lamb S) sY fuel nswp e evld s t stop.
 
 (* als(I_trn, y_trn, Y0, nswp, e, info, e_vld=, lamb=, w=, cb=, allow_skip_cores=), r=None.
    The value of the _info_appr call in front of the loop is ignored by the code, but the stop reason it
@@ -210,6 +219,74 @@ Definition als (S : list sample) (Y0 : list (core T)) (nswp : option nat) (e evl
   else
     let stop0 := info_appr None O (oopp K 1) (accv O Y0) nswp e evld in
     als_loop fuel lamb S nswp e evld (init_st S Y0) O stop0.
+
+(* ------------------------------------------------------------------ rank-adaptive path (r is not None), allow_swap=False
+   _optimize_core_adaptive(Q1, Q2, i1, i2, y_trn, Yl, Yr, e, r, lamb, w, ltr):
+     for k1, k2: idx = (i1 == k1) & (i2 == k2); if not idx.any(): continue      (a boolean mask: .any() is right here)
+                 Q[:, k1, k2, :] = _lstsq(A, b, lamb, w[idx]).reshape(r1, r2)
+     Qs = Q.reshape(r1*n1, n2*r2);  V1, V2 = matrix_skeleton(Qs, e, r, rel=True, give_to=..)
+     return V1.reshape(r1, n1, -1), V2.reshape(-1, n2, r2)
+   Q is np.empty: an index pair without sample leaves UNSPECIFIED memory in Q; the model puts 0 there (the
+   correspondence covers every neighbouring pair).  [skel c Qs rmax] is the c-th call of matrix_skeleton, returning
+   V1 as a core of shape (1, r1*n1, rank) and V2 as a core of shape (1, rank, n2*r2);
+   [orth] = teneva.orthogonalize(Y, 0). *)
+Variable orth : list (core T) -> list (core T).
+Variable skel : nat -> list (list T) -> nat -> core T * core T.
+
+Definition in_pair (p1 i1 p2 i2 : nat) (z : zipped) : bool :=
+  Nat.eqb (nth p1 (sidx (fst z)) O) i1 && Nat.eqb (nth p2 (sidx (fst z)) O) i2.
+Definition pair_sol (lamb : T) (k r1 r2 : nat) (Z : list zipped) (i1 i2 : nat) : option (list T) :=
+  match map (row_of r1 r2) (filter (in_pair k i1 (Datatypes.S k) i2) Z) with
+  | [] => None
+  | row :: rows => Some (lstsq (r1 * r2) lamb (row :: rows))
+  end.
+Definition pair_mat (lamb : T) (Q1 Q2 : core T) (k : nat) (Z : list zipped) : list (list T) :=
+  let r1 := cr1 Q1 in let n1 := cn Q1 in let n2 := cn Q2 in let r2 := cr2 Q2 in
+  let sols := tab n1 (fun i1 => tab n2 (fun i2 => pair_sol lamb k r1 r2 Z i1 i2)) in
+  tab (r1 * n1) (fun row => tab (n2 * r2) (fun col =>
+    match nth (col / r2) (nth (row mod n1) sols []) None with
+    | None => 0
+    | Some x => nth ((row / n1) * r2 + col mod r2) x 0
+    end)).
+Definition opt_adaptive (lamb : T) (c rmax : nat) (Q1 Q2 : core T) (k : nat) (Z : list zipped) : core T * core T :=
+  let UV := skel c (pair_mat lamb Q1 Q2 k Z) rmax in
+  let rk := cr2 (fst UV) in
+  (mkcore (cr1 Q1) (cn Q1) rk (fun a i g => cget K (fst UV) O (a * cn Q1 + i) g),
+   mkcore rk (cn Q2) (cr2 Q2) (fun g i b => cget K (snd UV) O g (i * cr2 Q2 + b))).
+
+(* state of the adaptive sweeps: cores, interfaces, number of skeleton calls made so far *)
+Definition ast : Type := (st * nat)%type.
+(*  for k in range(0, d-2): r_max = min(r, Y[k].shape[-1] + r_add)
+        Y[k], Y[k+1] = _optimize_core_adaptive(Y[k], Y[k+1], I[:,k], I[:,k+1], y, Yl[k], Yr[k+1], ..., ltr=True)
+        Yl[k+1] = contract('jk,kjl->jl', Yl[k], Y[k][:, i, :])                                               *)
+Definition afwd_step (lamb : T) (r radd : nat) (S : list sample) (sc : ast) (k : nat) : ast :=
+  let s := fst sc in
+  let Q1 := nth k (sY s) dcore in let Q2 := nth (Datatypes.S k) (sY s) dcore in
+  let G := opt_adaptive lamb (snd sc) (Nat.min r (cr2 Q1 + radd)) Q1 Q2 k
+                        (zip3 S (nth k (sL s) []) (nth (Datatypes.S k) (sR s) [])) in
+  (mk_st (upd (Datatypes.S k) (snd G) (upd k (fst G) (sY s)))
+         (upd (Datatypes.S k) (lupdate S k (fst G) (nth k (sL s) [])) (sL s)) (sR s), Datatypes.S (snd sc)).
+(*  for k in range(d-1, 1, -1): r_max = min(r, Y[k-1].shape[-1] + r_add)
+        Y[k-1], Y[k] = _optimize_core_adaptive(Y[k-1], Y[k], I[:,k-1], I[:,k], y, Yl[k-1], Yr[k], ..., ltr=False)
+        Yr[k-1] = contract('ijk,kj->ij', Y[k][:, i, :], Yr[k])                                               *)
+Definition abwd_step (lamb : T) (r radd : nat) (S : list sample) (sc : ast) (k : nat) : ast :=
+  let s := fst sc in
+  let Q1 := nth (pred k) (sY s) dcore in let Q2 := nth k (sY s) dcore in
+  let G := opt_adaptive lamb (snd sc) (Nat.min r (cr2 Q1 + radd)) Q1 Q2 (pred k)
+                        (zip3 S (nth (pred k) (sL s) []) (nth k (sR s) [])) in
+  (mk_st (upd k (snd G) (upd (pred k) (fst G) (sY s)))
+         (sL s) (upd (pred k) (rupdate S k (snd G) (nth k (sR s) [])) (sR s)), Datatypes.S (snd sc)).
+Definition asweep (lamb : T) (r radd : nat) (S : list sample) (sc : ast) : ast :=
+  let d := length (sY (fst sc)) in
+  fold_left (abwd_step lamb r radd S) (rev (seq 2 (d - 2)))
+            (fold_left (afwd_step lamb r radd S) (seq 0 (d - 2)) sc).
+(* als(..., r=r, r_add=radd) with e=None, no validation data, no cb: max(1, nswp) sweeps (see als below) *)
+Definition als_adaptive (S : list sample) (Y0 : list (core T)) (nswp r radd : nat) (lamb : T)
+  : result (list (core T)) :=
+  let Y := orth Y0 in
+  if negb (check_slices S Y) then Err ValueError
+  else if negb (idx_ok S Y) then Err IndexError
+  else Ok (sY (fst (Nat.iter (Nat.max 1 nswp) (asweep lamb r radd S) (init_st S Y, O)))).
 
 (* ------------------------------------------------------------------ reference semantics without interface state:
    every core update recomputes the interface vectors of every sample from the current cores *)
